@@ -83,15 +83,16 @@ func (mgr *GCMgr) UpdateCollision(bkt *Bucket, ki *KeyInfo, oldPos, newPos Posit
 }
 
 func (mgr *GCMgr) UpdateHtreePos(bkt *Bucket, ki *KeyInfo, oldPos, newPos Position) {
-	// TODO: should be a api of htree to be atomic
-	meta, _, ok := bkt.htree.get(ki)
-	if !ok {
-		logger.Warnf("old key removed when updating pos bucket %d %s %#v %#v",
-			bkt.ID, ki.StringKey, meta, oldPos)
-		return
-	}
 	verifPoint("gc:before-repoint")
-	bkt.htree.set(ki, meta, newPos)
+	found, updated := bkt.htree.updatePos(ki, oldPos, newPos)
+	if !found {
+		logger.Warnf("old key removed when updating pos bucket %d %s %#v",
+			bkt.ID, ki.StringKey, oldPos)
+	} else if !updated {
+		// a client write replaced the record while GC was relocating it: keep the new one
+		logger.Infof("key rewritten during gc, keep new pos, bucket %d %s %#v",
+			bkt.ID, ki.StringKey, oldPos)
+	}
 }
 
 func (mgr *GCMgr) BeforeBucket(bkt *Bucket, startChunkID, endChunkID int, merge bool) {
